@@ -26,13 +26,13 @@ Open Scope Qc_scope.
 Definition vec := list Qc.
 Definition mat := list vec.
 
-(* Switches: set one to `true` when the corresponding repair is in /repo (proposed_fix_C16_F*.diff).  The Impl then
+(* Switches: `true` = the corresponding repair is in /repo (all are: D60 = F1 + F6, D55 = F2, D56 = F3, D54 = F8).  The Impl then
    models the repaired mechanism, the guard of that class becomes vacuous, the generator of harness/c16.py (which
    reads these lines) starts producing the class, and the `_refuted` lemma of the class becomes vacuous. *)
-Definition fixed_F1 : bool := false.  (* Connectivity edges are inputs of their own (keyed by (source node, edge index)) *)
+Definition fixed_F1 : bool := true.   (* Connectivity edges are inputs of their own (keyed by (source node, edge index)) *)
 Definition fixed_F2 : bool := true.   (* post-synaptic variable registered under its own name *)
 Definition fixed_F3 : bool := true.   (* scalar weight + coupling template -> full weight matrix *)
-Definition fixed_F6 : bool := false.  (* one input name per variable inside an in-edge operator *)
+Definition fixed_F6 : bool := true.   (* one input name per variable inside an in-edge operator *)
 Definition fixed_F8 : bool := true.   (* one ring buffer per delayed Connectivity *)
 
 Definition mkq (num : Z) (den : positive) : Qc := Q2Qc (num # den).
